@@ -132,7 +132,12 @@ fn covered(case: &TCase, side: usize, b: usize, e: usize) -> bool {
     b < e && (b..e).all(|p| case.sides[side].iter().any(|f| f.0 == case.src_res && f.1 <= p && p < f.2))
 }
 
-pub fn check_case(rep: &mut Report, case: &TCase) -> Option<String> {
+fn tp_line(case: &TCase, src: &[(usize, usize, usize)]) -> String {
+    format!("tp {} {} {} {} {}", case.simple as u8, case.src_res, sel_s(src), case.by_index.map(|x| x.to_string()).unwrap_or("-".into()), case.sides.iter().map(|s| sel_s(s)).collect::<Vec<_>>().join("|"))
+}
+
+/// returns the model line and the implementation's answer
+pub fn check_case(rep: &mut Report, case: &TCase) -> Option<(String, String)> {
     let ctx = vec![case.line()];
     let mut store = match guarded(std::panic::AssertUnwindSafe(|| build(case))) {
         Ok(Ok(s)) => s,
@@ -160,11 +165,11 @@ pub fn check_case(rep: &mut Report, case: &TCase) -> Option<String> {
     let want_ok = match sside { Some(s) if s < case.sides.len() => !case.source.is_empty() && case.source.iter().all(|(b, e)| covered(case, s, *b, *e)), _ => false };
     rep.count(&format!("source:{}", if want_ok { if case.source.len() > 1 { "covered/multi" } else { "covered/one" } } else { "not-covered" }));
     let (builders, src_pieces) = match res {
-        Err(m) => { rep.fail("panic", "C16/transpose-panics", ctx, if want_ok { "ok" } else { "err" }, &m); return Some(format!("panic")); }
-        Ok((Err(_), _)) => {
+        Err(m) => { rep.fail("panic", "C16/transpose-panics", ctx, if want_ok { "ok" } else { "err" }, &m); return Some((tp_line(case, &case.source.iter().map(|(b, e)| (case.src_res, *b, *e)).collect::<Vec<_>>()), format!("panic"))); }
+        Ok((Err(_), p)) => {
             if observe(&store) != before { rep.fail("oracle", "C16/failed-transpose-changed-store", ctx.clone(), "unchanged", "changed"); }
             rep.count(if want_ok { "outcome:covered-but-refused" } else { "outcome:refused" });
-            return Some("err".into());
+            return Some((tp_line(case, &p.iter().map(|x| (x.0, x.1, x.2)).collect::<Vec<_>>()), "err".into()));
         }
         Ok((Ok(b), p)) => (b, p),
     };
@@ -172,16 +177,17 @@ pub fn check_case(rep: &mut Report, case: &TCase) -> Option<String> {
         rep.fail("oracle", "C16/uncovered-source-accepted", ctx.clone(), "an error", &format!("{} annotations returned", builders.len()));
     }
     rep.count("outcome:transposed");
+    let line = tp_line(case, &src_pieces.iter().map(|x| (x.0, x.1, x.2)).collect::<Vec<_>>());
     let n = builders.len();
     let added = guarded(std::panic::AssertUnwindSafe(|| store.annotate_from_iter(builders.into_iter())));
     match added {
         Ok(Ok(v)) if v.len() == n => {}
-        other => { rep.fail(if other.is_err() { "panic" } else { "oracle" }, "C16/returned-annotations-cannot-be-added", ctx.clone(), "added", &format!("{:?}", other.map(|r| r.map(|v| v.len()).map_err(|e| format!("{}", e)))));  return Some("ok unaddable".into()); }
+        other => { rep.fail(if other.is_err() { "panic" } else { "oracle" }, "C16/returned-annotations-cannot-be-added", ctx.clone(), "added", &format!("{:?}", other.map(|r| r.map(|v| v.len()).map_err(|e| format!("{}", e)))));  return Some((line, "ok unaddable".into())); }
     }
     let source_text: Vec<String> = src_pieces.iter().map(|p| p.3.clone()).collect();
     let sides = match sides_of(&store, "NT") {
         Some(s) => s,
-        None => { rep.fail("oracle", "C16/no-new-transposition", ctx.clone(), "annotation NT", "none"); return Some("ok no-transposition".into()); }
+        None => { rep.fail("oracle", "C16/no-new-transposition", ctx.clone(), "annotation NT", "none"); return Some((line, "ok no-transposition".into())); }
     };
     let answer = format!("ok {}", show_sides(&sides));
     // the sides link piecewise identical text
@@ -263,7 +269,7 @@ pub fn check_case(rep: &mut Report, case: &TCase) -> Option<String> {
             }
         }
     }
-    Some(answer)
+    Some((line, answer))
 }
 
 fn rand_str(rng: &mut Rng, n: usize, alphabet: &[char]) -> String {
@@ -343,7 +349,7 @@ pub fn replay(lines: &[String]) -> Option<(String, String)> {
     for f in &r.failures {
         println!("  ORACLE: {} {} expected={} got={}", f.kind, f.signature, f.expected, f.got);
     }
-    a.map(|x| (l.clone(), x))
+    a
 }
 
 pub fn run(opts: &Opts) -> Report {
@@ -361,6 +367,9 @@ pub fn run(opts: &Opts) -> Report {
         let cov = match sside { Some(s) if s < case.sides.len() => case.source.iter().all(|(b, e)| covered(&case, s, *b, *e)), _ => false };
         rep.case(if cov { Some(&line) } else { None });
         let a = check_case(&mut rep, &case);
+        if let Some((tpl, answer)) = &a {
+            rep.model_case_ctx(vec![line.clone()], vec![tpl.clone()], vec![answer.clone()], "transpose");
+        }
         if i == 0 { rep.sample(json!({"case": line, "implementation": a})); }
     }
     rep
